@@ -247,6 +247,38 @@ theorem pok_witness_unique (pp : PP G1 G2 ι) (hnd : NonDegenerate e pp.g2) (pk 
     exact neg_eq_zero.mp h5
   exact sub_eq_zero.mp (hnd _ h4)
 
+
+/-! ## fewer than `t` shares -/
+
+open Polynomial in
+/-- **Fewer than `t` shares determine nothing about the key**: for every set of fewer than `t` non-zero evaluation points
+there are two sharing polynomials of degree `< t` that give exactly the same shares at those points and different keys
+(values at 0). So no function of fewer than `t` genuine shares — in particular not their Lagrange combination — is the
+signature under the key being verified against, except for one value of the key in `|F|`. -/
+theorem fewer_than_t_undetermined {κ : Type*} [DecidableEq κ] (S : Finset κ) (v : κ → F) (h0 : ∀ k ∈ S, v k ≠ 0)
+    (t : ℕ) (hlt : S.card < t) :
+    ∃ P Q : F[X], P.degree < t ∧ Q.degree < t ∧ (∀ k ∈ S, P.eval (v k) = Q.eval (v k)) ∧ P.eval 0 ≠ Q.eval 0 := by
+  refine ⟨0, ∏ k ∈ S, (X - C (v k)), ?_, ?_, ?_, ?_⟩
+  · rw [degree_zero]
+    exact WithBot.bot_lt_coe _
+  · rw [degree_prod]
+    have : ∑ k ∈ S, (X - C (v k)).degree = (S.card : WithBot ℕ) := by
+      rw [Finset.sum_congr rfl (fun k _ => degree_X_sub_C (v k))]
+      simp
+    rw [this]
+    exact_mod_cast hlt
+  · intro k hk
+    rw [eval_zero, eval_prod]
+    symm
+    apply Finset.prod_eq_zero hk
+    simp
+  · rw [eval_zero, eval_prod]
+    intro h
+    have := (Finset.prod_eq_zero_iff.mp h.symm)
+    obtain ⟨k, hk, hz⟩ := this
+    simp at hz
+    exact h0 k hk hz
+
 /-! ## verifying is side-effect free -/
 
 /-- **No verifying function mutates, through a receiver-mutating mathlib method (`Add`, `Sub`, `Clone`, `Affine`, `Mod`,
